@@ -303,8 +303,12 @@ def run_shard(desc):
         case = {"lattice": li, "cell": cell, "sym": sym, "ngrains": ng, "hkl_tol": hkl_tol, "cosine_tol": ctol, "minpks": minpks,
                 "ds_tol": ds_tol, "data": kind, "seed": seed_of(), "orientation_set": extra_shift}
         uc = ucm.unitcell(cell, sym)
-        ind = indexing.indexer(unitcell=uc, gv=allgv.copy(), cosine_tol=ctol, minpks=minpks, hkl_tol=hkl_tol, ds_tol=ds_tol, wavelength=0.3,
+        # the caller's work array is refilled (here: with the next data set, another sample) once the indexer has been made: the indexer
+        # searches the g-vectors it was given
+        work = allgv.copy()
+        ind = indexing.indexer(unitcell=uc, gv=work, cosine_tol=ctol, minpks=minpks, hkl_tol=hkl_tol, ds_tol=ds_tol, wavelength=0.3,
                                uniqueness=0.5, max_grains=100)
+        work[:] = np.dot(work[::-1], O.rotation_from_axis_angle((2, 3, -1), 77.0).T) * 1.013
         ind.assigntorings()
         try:
             ind.score_all_pairs()
